@@ -351,8 +351,10 @@ def run(ctx):
     dump = ctx.path("prog_random.ndjson")
     with ThreadPoolExecutor(max_workers=max(2, min(lib.NCPU, 6))) as ex:
         fr = ex.submit(lib.run_driver, DRV, ["--random", nrand, "--out", rtrace, "--dump-programs", dump], env={"VERIF_SEED": ctx.seed})
-        fps = [ex.submit(pinned_one, ctx, it) for it in PINNED] if not only else []
-        fes = [ex.submit(explained_one, ctx, it) for it in EXPLAINED] if not only else []
+        # quick tier: one refutation per finding and two wrong caches; thorough: all of them, and the twins re-run with their findings listed
+        pinned = PINNED[:8] if ctx.quick else PINNED
+        fps = [ex.submit(pinned_one, ctx, it) for it in pinned] if not only else []
+        fes = [ex.submit(explained_one, ctx, it) for it in EXPLAINED] if not (only or ctx.quick) else []
         outs = list(ex.map(lambda t: mc_one(ctx, *t), insts))
         pins = dict(f.result() for f in fps)
         expl = dict(f.result() for f in fes)
